@@ -55,7 +55,7 @@ def _crate_for(repo):
     return tmp, tmp
 
 
-def explore(repo="/repo", seed=1, n=3000, features="test-utils,metrics", timeout=900):
+def explore(repo="/repo", seed=1, n=3000, features="test-utils,metrics", timeout=240):
     """BOUNDED stand-in: run the schedule explorer (replay/src/explore.rs) against the real crate."""
     crate, tmp = _crate_for(repo)
     env = dict(os.environ, CARGO_TARGET_DIR=os.path.join(os.path.dirname(HERE), "build", "replay-target"), CARGO_NET_OFFLINE="true")
@@ -92,6 +92,10 @@ def run_for_label(pid, label, repo="/repo"):
     sc = scenarios_for(label)
     if not sc:
         return {"reproduced": False, "scenarios": [], "note": "no replay witness is registered for this obligation"}
+    return run_scenarios(sc, repo)
+
+
+def run_scenarios(sc, repo="/repo"):
     # the crate depends on /repo by path; for another repo path use a scratch manifest
     crate = HERE
     tmp = None
